@@ -11,8 +11,8 @@ CONSTANTS
   InitSets <- None
   MaxMsgs = 1
   MaxLen = 3
-  Dev = {}
-  Store = "dict"
+  AllOpen = {}
+  Stores = {"dict"}
 INVARIANT TypeOK
 INVARIANT MatcherSane
 PROPERTY FailChangesNothing
